@@ -165,6 +165,24 @@ func (r *openpgpReader) Read(p []byte) (n int, err error) {
 	return
 }
 
+// readWholeLine reads a line of any length from r, without the end-of-line
+// bytes. Header lines may be longer than the buffer of r.
+func readWholeLine(r *bufio.Reader) (line []byte, err error) {
+	for {
+		chunk, isPrefix, err := r.ReadLine()
+		if err != nil {
+			return nil, err
+		}
+		if line == nil && !isPrefix {
+			return chunk, nil
+		}
+		line = append(line, chunk...)
+		if !isPrefix {
+			return line, nil
+		}
+	}
+}
+
 // Decode reads a PGP armored block from the given Reader. It will ignore
 // leading garbage. If it doesn't find a block, it will return nil, io.EOF. The
 // given Reader is not usable after calling this function: an arbitrary amount
@@ -196,20 +214,14 @@ TryNextBlock:
 	p = new(Block)
 	p.Type = string(line[len(armorStart) : len(line)-len(armorEndOfLine)])
 	p.Header = make(map[string]string)
-	nextIsContinuation := false
 	var lastKey string
 
 	// Read headers
 	for {
-		isContinuation := nextIsContinuation
-		line, nextIsContinuation, err = r.ReadLine()
+		line, err = readWholeLine(r)
 		if err != nil {
 			p = nil
 			return
-		}
-		if isContinuation {
-			p.Header[lastKey] += string(line)
-			continue
 		}
 		line = bytes.TrimSpace(line)
 		if len(line) == 0 {
